@@ -49,6 +49,19 @@ pub fn gen_witness(rng: &mut impl rand::RngCore, grid: &[(String, Fr)], i: usize
 }
 
 pub fn run(rep: &mut Rep) {
+    // Every value handed to an encoder below is a well-formed value of its type and every byte string handed to a
+    // decoder outside an explicit `catch` is an independent encoding of such a value: a panic of the codecs under
+    // test on one of them is a failed round trip, not a harness failure.
+    if let Err(p) = catch(|| run_inner(rep)) {
+        if p.loc.contains("/repo/") {
+            rep.violation(format!("codec:panic-on-well-formed-value:{}", p.file()), json!({"panic": p.msg, "at": p.loc, "note": "the remaining workload of this run was not executed"}));
+        } else {
+            rep.inconclusive(format!("harness panic: {} at {}", p.msg, p.loc));
+        }
+    }
+}
+
+fn run_inner(rep: &mut Rep) {
     rep.rule = "round trip of every codec pair on boundary+random values; bytes compared with an independent encoder written from the documented layouts; every truncation length and 1..40 trailing bytes of witness encodings must fail to decode. distinct_nontrivial = distinct (codec pair, value class / length) keys".into();
     rep.assumptions = vec!["documented layouts as transcribed in DESIGN.md Appendix A".into()];
     let thorough = rep.thorough();
@@ -76,9 +89,13 @@ pub fn run(rep: &mut Rep) {
         }
         if i < 2000 {
             // serialize_field_element / deserialize_field_element
-            let e2 = serialize_field_element(v);
-            if e2 != enc || deserialize_field_element(e2) != v {
-                viol(rep, "field_element:roundtrip", json!({"value": fr_s(&v)}));
+            match catch(|| {
+                let e2 = serialize_field_element(v);
+                e2 == enc && deserialize_field_element(e2) == v
+            }) {
+                Ok(true) => {}
+                Ok(false) => viol(rep, "field_element:roundtrip", json!({"value": fr_s(&v)})),
+                Err(p) => viol(rep, "field_element:roundtrip:panic", json!({"value": fr_s(&v), "panic": p.msg})),
             }
         }
     }
